@@ -1,7 +1,7 @@
 (* C12 — Task restarts stay within the configured policy.  Property theorems only. *)
 From Coq Require Import ZArith List Bool String.
 Import ListNotations.
-Require Import V.Restart.Model V.Restart.Proofs V.Restart.More.
+Require Import V.Restart.Model V.Restart.Proofs V.Restart.More V.Restart.Config.
 Open Scope Z_scope.
 
 (* A task is started again only for a listed reason or a failed submission (ordinary engines),
@@ -222,6 +222,41 @@ Theorem C12_resub_cap_launches : forall c h,
 Proof. exact resub_cap_launches. Qed.
 Print Assumptions C12_resub_cap_launches.
 
+(* ---- the configuration side of "never after a killed or cancelled task".  The restart chain only
+   tests membership in restartHookOn; that Killed / Cancelled are never listed is enforced by the
+   FlowIR schema when the configuration is loaded ([schema_accepts]: every restartHookOn list of an
+   override / blueprint as written, and the effective list of the active platform).  (1) the schema's verdict on a name:
+   accepted iff it is, letter for letter, the name of an exit reason of codes.exitReasons other than
+   Killed / Cancelled - no other spelling passes and no legal reason is turned away; (2) an accepted
+   document: the effective list consists of names of exit reasons, none of them Killed / Cancelled,
+   and no override or blueprint spells them either; (3) hence for a component built from an accepted
+   document no exit with Killed / Cancelled is ever followed by a restart - whatever the hook answers
+   (also "restart possible"), the stability verdict, the counters - at one exit and over whole
+   histories from any state. *)
+Theorem C12_config_schema : forall s raws eff,
+  (name_ok s = true <-> exists r, s = name_of_reason r /\ r <> Killed /\ r <> Cancelled) /\
+  (forall r, name_ok (name_of_reason r) = restartable r) /\
+  (schema_accepts raws eff = true ->
+     ~ In Killed (reasons_of eff) /\ ~ In Cancelled (reasons_of eff) /\
+     map name_of_reason (reasons_of eff) = eff /\
+     (forall l x, In l raws -> In (RLit x) l -> x <> "Killed"%string /\ x <> "Cancelled"%string)).
+Proof.
+  intros s raws eff. split; [exact (name_ok_spec s)|]. split; [exact name_ok_reason|exact (accepted_no_kill raws eff)].
+Qed.
+Print Assumptions C12_config_schema.
+
+Theorem C12_accepted_config_never_after_kill : forall raws eff c,
+  schema_accepts raws eff = true -> hook_on c = reasons_of eff ->
+  (forall s r h stable ok, (r = Killed \/ r = Cancelled) -> snd (ctl_restart c s r h stable ok) <> Initiated) /\
+  (forall s h, restarted_after_kill c s h = false).
+Proof.
+  intros raws eff c Ha Hc. split.
+  - intros s r h stable ok Hk. exact (accepted_never_after_kill raws eff c s r h stable ok Ha Hc Hk).
+  - intros s h. apply valid_history_no_restart_after_kill. unfold valid_hook_on. rewrite Hc.
+    unfold schema_accepts in Ha. apply andb_true_iff in Ha as [_ He]. exact (proj1 (reasons_of_restartable eff He)).
+Qed.
+Print Assumptions C12_accepted_config_never_after_kill.
+
 (* non-vacuity: default policy (max 3, default hook), exits RE, RE, SubmissionFailed, RE, RE:
    three continuation restarts and one re-submission are initiated, the fourth RE is refused and
    the component fails *)
@@ -265,3 +300,20 @@ Proof.
   - cbn. intros [H|[H|[]]]; discriminate.
   - repeat constructor; discriminate.
 Qed.
+
+(* the configuration theorems are not vacuous: a document with a literal list in a platform override, a
+   variable reference in the component and the effective list [KnownIssue; ResourceExhausted] is
+   accepted; one spelling Cancelled is rejected, as are the other spellings; a history in which the
+   accepted component is cancelled after two restarts the hook allowed: the cancelled task is not started again *)
+Definition ex_accepted : cfg := {| max_restarts := None; hook_file := HFNone; hook_loadable := true;
+  hook_on := reasons_of ["KnownIssue"%string; "ResourceExhausted"%string]; is_sim := false; sim_restart := false;
+  is_rep := false; shutdown_on := [] |}.
+Example C12_nonvacuous_config :
+  schema_accepts [[RLit "SystemIssue"%string; RLit "Success"%string]; [RVar]] ["KnownIssue"%string; "ResourceExhausted"%string] = true /\
+  schema_accepts [[RVar]] ["Cancelled"%string] = false /\ schema_accepts [[RLit "Killed"%string]] [] = false /\
+  name_ok "Canceled"%string = false /\ name_ok "cancelled"%string = false /\ name_ok "UnknownIssue"%string = true /\
+  hook_on ex_accepted = [KnownIssue; ResourceExhausted] /\
+  (let ev r := {| ev_reason := r; ev_hook := HPossible; ev_stable := true; ev_run_ok := true |} in
+   run_hist ex_accepted init_st (map ev [KnownIssue; ResourceExhausted; Cancelled; KnownIssue])
+   = ([Initiated; Initiated; CouldNotInitiate], Some Failed, {| restarts := 2; resub := 0; shut := true |})).
+Proof. repeat split; reflexivity. Qed.
